@@ -97,6 +97,9 @@ def modes_for(sdir):
         "t-junit": ["test", "-d", T, "-o", "junit"],
         "t-console": ["test", "-d", T],
         "t-console-verbose": ["test", "-r", os.path.join(T, "r1.guard"), "-t", os.path.join(T, "tests", "r1_tests.json"), "-v"],
+        # runs that end in an evaluation error: the message (stderr) names the rules of the file
+        "v-err-unknown-rule": ["validate", "-r", os.path.join(sdir, "e1.guard")] + D,
+        "v-err-unknown-call": ["validate", "-r", os.path.join(sdir, "e2.guard")] + D + ["--structured", "-S", "none", "-o", "json"],
         "rulegen": ["rulegen", "-t", os.path.join(sdir, "rg.json")],
         "v-tf-console": ["validate", "-r", os.path.join(sdir, "tf.guard"), "-d", os.path.join(sdir, "tf")],
         "v-tf-console-all": ["validate", "-r", os.path.join(sdir, "tf.guard"), "-d", os.path.join(sdir, "tf"), "-S", "all", "-v"],
@@ -175,6 +178,9 @@ def build_inputs(rng, sdir):
         "rule fn_count {\n    let c = count(Resources.*)\n    %c < 0\n}\n"
         "rule fn_conv {\n    let s = parse_string(num)\n    %s == \"?\"\n    let f = parse_float(num)\n    %f < 0.0\n}\n"
         "rule fn_join {\n    let k = Resources[ keys == /./ ].Type\n    let j = join(%k, \"|\")\n    %j == \"?\"\n    let r = regex_replace(name, \"(?i)s\", \"$0$0\")\n    %r == \"?\"\n    let e = url_decode(name)\n    %e == \"?\"\n}\n")
+    defs = "".join("rule known_%s {\n    a exists\n}\nrule pknown_%s(p) {\n    %%p exists\n}\n" % (n_, n_) for n_ in rng.sample("abcdefghijk", 7))
+    open(os.path.join(sdir, "e1.guard"), "w").write(defs + "rule uses_unknown {\n    no_such_rule\n}\n")
+    open(os.path.join(sdir, "e2.guard"), "w").write(defs + "rule calls_unknown {\n    no_such_prule(a)\n}\n")
     shutil.copy(os.path.join(sdir, "r1.guard"), os.path.join(sdir, "t", "r1.guard"))
     names = [r["name"] for r in f["rules"]]
     import re as _re
@@ -239,7 +245,7 @@ def shard(ctx):
                 else:
                     outs = {norm_console(r[1]) for r in runs}
                     what = "stdout-lines"
-                nonempty = any(len(r[1]) > 0 for r in runs)
+                nonempty = any(len(r[1]) > 0 or (mode.startswith("v-err") and len(r[2]) > 0) for r in runs)
                 ctx.res.extra.setdefault("modes_with_output", set()).add(mode if nonempty else mode + ":EMPTY")
                 ctx.res.distinct.add((mode, len(runs[0][1]) // 200, list(codes)[0]))
                 if len(outs) > 1:
@@ -388,7 +394,7 @@ def main(tier, seed):
     core.build(need_cli=True)
     res = core.run_shards(shard, seed, tier, "C05")
     mo = res.extra.get("modes_with_output", set())
-    floor = {"cases": (res.cases, 500), "modes_with_nonempty_output": (len([m for m in mo if not m.endswith(":EMPTY")]), 27),
+    floor = {"cases": (res.cases, 500), "modes_with_nonempty_output": (len([m for m in mo if not m.endswith(":EMPTY")]), 29),
              "in_process_repetitions": (res.counts["in_process_repetitions"], 200),
              "earlier_file_units_compared": (res.counts["earlier_file_units_compared"], 150)}
     return core.finish("C05", tier, seed, res, t0,
